@@ -1056,8 +1056,11 @@ def into_iter(I, a):
         if isinstance(d, Agg):
             ty = d.ty or ''
             if ty != '[array]' and ('Range' in ty or (len(d) == 2 and all(isinstance(x, int) for x in d))):
-                # `for x in &mut range` / by_ref: iterate the range in place
+                # `for x in &mut range` / by_ref / `opt.as_mut().next()`: iterate the range *in place* - every step is written back
+                # into the range value, so that the next call through another reference continues where this one stopped
                 it = into_iter(I, [d])
+                it.agg = d
+                it.incl = ty.endswith('RangeInclusive')
                 return it
             return Iter('slice_iter', lst=d, pos=0, end=len(d))
         if isinstance(d, Enum) and d.ty == 'Option':
@@ -1104,6 +1107,8 @@ def it_next(I, it):
         if it.pos >= it.end:
             return None
         it.pos += 1
+        if getattr(it, 'agg', None) is not None:
+            it.agg[0] = it.pos
         return it.pos - 1
     if k == 'rev':
         return it_next_back(I, it.inner)
@@ -1269,6 +1274,9 @@ def it_next_back(I, it):
         if it.pos >= it.end:
             return None
         it.end -= 1
+        if getattr(it, 'agg', None) is not None:
+            if len(it.agg) > 1:
+                it.agg[1] = it.end - 1 if getattr(it, 'incl', False) else it.end
         return it.end
     if k in ('chars', 'char_indices'):
         if it.pos >= it.end:
@@ -4165,3 +4173,16 @@ def _(I, a):
     if ty == 'bool':
         return 1
     raise Unsupported('size_of ' + ty)
+
+
+@model('core::slice::<impl [T]>::chunk_by', 'core::slice::<impl [T]>::chunk_by_mut')
+def _(I, a):
+    lst, st, en = as_list(a[0])
+    out, cur = [], st
+    for i in range(st + 1, en):
+        if not I.branch(I.call_closure(a[1], [Ref(Slot(lst, i - 1)), Ref(Slot(lst, i))])):
+            out.append(SliceRef(lst, cur, i))
+            cur = i
+    if en > st:
+        out.append(SliceRef(lst, cur, en))
+    return Iter('into_iter', lst=out, pos=0, end=len(out))
